@@ -35,6 +35,9 @@ struct Call {
     /// the handler is CPU-bound for this long from its start (it can be neither polled nor
     /// dropped meanwhile)
     hold_ms: u64,
+    /// the handler is busy on an always-ready resource for this long (it yields only when tokio's
+    /// cooperative budget makes it, `busy_on_a_hot_resource`); handler_ms is 0 then
+    busy_ms: u64,
 }
 
 #[derive(Clone, Debug, Default)]
@@ -109,6 +112,15 @@ fn run(input: RunInput) -> ScenFuture {
         // in some runs a part of the handlers is CPU-bound for a while after starting
         let cpu_bound = w.flag("cpu_bound_handlers", 0.3);
         let mut r_cpu = w.rng("wl:cpu-bound");
+        // in some runs a few handlers are busy on a resource that is always ready: they get out of
+        // the way (and notice the cancellation) only because tokio's cooperative budget makes
+        // them yield. The process is then one busy thread, so an abandonment is stamped with its
+        // nominal instant (when the caller's deadline fell), not with the instant the caller's
+        // task got to run
+        let busy = !lossy && !bulk && w.flag("handlers_busy_on_a_hot_resource", 0.12);
+        let n_calls = if busy { n_calls.min(24) } else { n_calls };
+        let mut r_busy = w.rng("wl:busy");
+        let mut n_busy = 0;
         // plan the calls
         let mut r = w.rng("wl:calls");
         let mut calls = Vec::new();
@@ -131,6 +143,13 @@ fn run(input: RunInput) -> ScenFuture {
                 4 => handler_ms * 1000 + r.gen_range(0..(4 * lat_max + 1000)),
                 _ => r.gen_range(0..200_000),
             });
+            let busy_ms = if busy && n_busy < 3 && r_busy.gen_bool(0.3) { n_busy += 1; r_busy.gen_range(100..500) } else { 0 };
+            let (handler_ms, abandon_after_us, abandon) = if busy_ms > 0 {
+                // abandoned while the handler is busy (after the request has had time to arrive)
+                (0, Some(r_busy.gen_range((4 * lat_max + 2000)..(busy_ms * 1000 / 2).max(4 * lat_max + 2001))), true)
+            } else {
+                (handler_ms, abandon_after_us, abandon)
+            };
             calls.push(Call {
                 nonce,
                 abandon_after_us,
@@ -139,7 +158,8 @@ fn run(input: RunInput) -> ScenFuture {
                 resp_len: if big_resp { r.gen_range(50_000..400_000) } else { r.gen_range(0..2000) },
                 handler_ms: if abandon { handler_ms } else { handler_ms.min(800) },
                 start_ms: if spread_ms == 0 { 0 } else { r.gen_range(0..=spread_ms) },
-                hold_ms: if cpu_bound && r_cpu.gen_bool(0.3) { r_cpu.gen_range(5..2_000) } else { 0 },
+                hold_ms: if busy_ms == 0 && cpu_bound && r_cpu.gen_bool(0.3) { r_cpu.gen_range(5..2_000) } else { 0 },
+                busy_ms,
             });
         }
         let results: Arc<Mutex<Vec<CallResult>>> = Arc::new(Mutex::new(vec![CallResult::default(); n_calls as usize]));
@@ -152,8 +172,10 @@ fn run(input: RunInput) -> ScenFuture {
                     .with_header("x-nonce", c.nonce.to_string())
                     .with_header("x-delay-ms", c.handler_ms.to_string())
                     .with_header("x-hold-ms", c.hold_ms.to_string())
+                    .with_header("x-busy-ms", c.busy_ms.to_string())
                     .with_header("x-resp-len", c.resp_len.to_string());
                 w2.event(format!("s{}", c.nonce));
+                let t_call = w2.now_ns();
                 let res = match c.abandon_after_us {
                     Some(us) if c.via_timeout_header => {
                         // abandonment by the outbound timeout layer (timeout header)
@@ -163,7 +185,10 @@ fn run(input: RunInput) -> ScenFuture {
                     Some(us) => tokio::time::timeout(Duration::from_micros(us), client.net.rpc(server_id, req)).await.ok(),
                     None => Some(client.net.rpc(server_id, req).await),
                 };
-                let now = w2.now_ns();
+                let now = match c.abandon_after_us {
+                    Some(us) if busy => (t_call + us * 1000).min(w2.now_ns()),
+                    _ => w2.now_ns(),
+                };
                 let mut out = CallResult::default();
                 match res {
                     None => {
@@ -213,6 +238,10 @@ fn run(input: RunInput) -> ScenFuture {
         // congestion window and then for the pacer (up to 0.8 RTT); four round trips in total
         // is still two orders of magnitude below the idle timeout
         let bound_ns = if !strict_timing { (idle_ms + ka_ms) * 1_000_000 } else { 8 * lat_max * 1000 + 10 * q_ns };
+        // a busy handler yields every 128 items and the timer driver gets a turn every `event
+        // interval` (at most 61) task polls: with up to 3 busy handlers that is at most
+        // 61 * 128 * BUSY_STEP = 16 ms of CPU between two turns of the driver
+        let bound_ns = if busy { bound_ns + 40 * q_ns } else { bound_ns };
         let mut running_abandons = 0u64;
         for c in &calls {
             let res = &results[c.nonce as usize];
@@ -231,7 +260,10 @@ fn run(input: RunInput) -> ScenFuture {
                     // (a handler that is CPU-bound cannot be dropped before it yields)
                     let hold_end = s.at_ns + c.hold_ms * 1_000_000;
                     let known_at = t_a.max(s.at_ns).max(hold_end);
-                    let natural_end = s.at_ns + c.handler_ms.max(c.hold_ms) * 1_000_000;
+                    let natural_end = s.at_ns + c.handler_ms.max(c.hold_ms).max(c.busy_ms) * 1_000_000;
+                    if c.busy_ms > 0 && t_a < natural_end {
+                        w.probe("abandoned-while-handler-busy-on-a-hot-resource");
+                    }
                     if c.hold_ms > 0 && t_a < hold_end {
                         w.probe("abandoned-while-handler-cpu-bound");
                     }
